@@ -21,7 +21,7 @@ RULE = ('(a) Utility::Match against the Gallina glob matcher: ALL patterns of le
         'declared per case through ScriptGlobal), the request carries filter_vars of that very name with a value that would flip the verdict (and names of navigation fields, this, globals), '
         'the user filter is on the generic path (match / regex / len / in) or on the targeted fast path, through GetFilterTargets with every handler\'s QueryDescription and the HTTP handlers; '
         'family join-same-name: Hosts named like CheckCommand / EventCommand / TimePeriod / Endpoint / Zone objects of the fixture, permissions differing per joined type, several joins per request '
-        'in every order, hosts and services as primary type, every serialised join observed; 45% of the mixed cases also declare globals and use free-name / function-call atoms. family attrs (round 5): GET /v1/objects/<type> through the real ObjectQueryHandler with every shape of attrs (absent, empty, ordinary fields, [config, navigation] fields, the object-valued navigation field Service.host, no_user_view fields, unknown names, fields of the other type), joins (bare prefix, <join>.<field> with ordinary / hidden / unknown fields, foreign prefixes), all_joins and meta (used_by, location, unknown), for users whose permission for the joined types is absent / plain / filtered: the KEY SET of every attrs dictionary, the joined objects, every config object embedded anywhere in a serialised value and the number of hidden fields among the keys are observed; one case compares the live reflection data of Host, Service, CheckCommand, EventCommand, TimePeriod, Endpoint with the regenerated field tables; family race (round 5): directed schedules - a modify / delete / action / query request (by URL name, name parameter, name list, type scan, fast path) is parked while the permission filter evaluates the target, another writer takes the name lock, deletes the target and creates a new object of the same name with other attributes, the request continues: which OBJECT was acted on is observed. non-trivial = the case contains a query that returned at least one object or was refused; distinct = distinct script text')
+        'in every order, hosts and services as primary type, every serialised join observed; 45% of the mixed cases also declare globals and use free-name / function-call atoms. family attrs (round 5): GET /v1/objects/<type> through the real ObjectQueryHandler with every shape of attrs (absent, empty, ordinary fields, [config, navigation] fields, the object-valued navigation field Service.host, no_user_view fields, unknown names, fields of the other type), joins (bare prefix, <join>.<field> with ordinary / hidden / unknown fields, foreign prefixes), all_joins and meta (used_by, location, unknown), for users whose permission for the joined types is absent / plain / filtered: the KEY SET of every attrs dictionary, the joined objects, every config object embedded anywhere in a serialised value and the number of hidden fields among the keys are observed; one case compares the live reflection data of Host, Service, CheckCommand, EventCommand, TimePeriod, Endpoint with the regenerated field tables; family race (round 5): directed schedules - a modify / delete / action / query request (by URL name, name parameter, name list, type scan, fast path) is parked while the permission filter evaluates the target, another writer takes the name lock, deletes the target and creates a new object of the same name with other attributes, the request continues: which OBJECT was acted on is observed. family permission-history (round 6): one user, a required permission, 2-4 requests (HasPermission, GetFilterTargets with both providers, the query / modify / delete / action handlers, the attribute query), then 1-4 rounds of [change the user\'s permissions in the running process: narrow / widen / revoke / add filter / remove filter / near miss through ModifyAttribute or - lists without filter - through POST /v1/objects/apiusers/<name> as another user, RestoreAttribute, delete + re-create the user object] followed by the SAME requests again plus fresh ones; family keepalive-identity (round 6): 2-4 additional ApiUsers (passwords incl. one containing a colon, names differing in case, some with client_cn; permission lists of different power), 1-4 real HttpServerConnections per case over TLS on a socketpair (25% with a certificate CN: of a user, of nobody), 6-12 steps: GET /v1/objects/<type> with valid credentials of changing users, wrong / prefix / extended / case-changed / empty password, unknown / deleted / case-changed user, credentials without colon, no header, other schemes (Bearer, basic, BASIC, Digest, bare Basic, bare base64), Connection: close, interleaved with runtime changes of users (permissions set / restored, user deleted, deleted and re-created with another password); requests are also sent on connections that correct code has already closed. non-trivial = the case contains a query that returned at least one object or was refused (401 / 404 / error); distinct = distinct script text')
 TRUSTED = ['model: coq/Perm/PmModel.v (transcription of FilterUtility::HasPermission/CheckPermission/EvaluateFilter/GetFilterTargets, '
            'ApplyRule::GetTargetHosts/GetTargetServices, the filter_vars shadowing guard, the namespace resets of the permission frame, the joins loop of ObjectQueryHandler; glob matcher proved equivalent to a declarative '
            'spec and compared exhaustively with Utility::Match on short strings)',
@@ -34,6 +34,7 @@ TRUSTED = ['model: coq/Perm/PmModel.v (transcription of FilterUtility::HasPermis
            'navigation fields of Host/Service from the .ti files, structure of EvaluateFilter\'s binding loop (coq/Facts/Facts_c18.v)',
            'harness/ops_pm.cpp: exception classes (ScriptError / invalid_argument), object sets and HTTP status are observed; no log text',
            'attribute model coq/Perm/PmAttrs.v (transcription of ObjectQueryHandler::SerializeObjectAttrs and of the per-object part of HandleRequest: meta, attrs, joins), generic in the field table; the tables are regenerated from the .ti files and lib/base/objecttype.cpp (coq/Facts/Facts_c18.v f_pm_field_tables) and compared as sets with the live reflection data (op pm_fields); an embedded config object is recognised in a response as a dictionary with type = a config type and __name',
+           'history model coq/Perm/PmUsers.v (transcription of ApiUser::GetByAuthHeader / GetByClientCN and of the identity part of HttpServerConnection::ProcessMessages; ConfigObject::ModifyAttribute / RestoreAttribute of a whole attribute = assignment / back to the config value; objects have identities, the registry maps names); the theorems are generic in the decision function of a request; Base64::Decode, the beast HTTP parser, TLS and the verification of client certificates are trusted (the harness passes the CN as identity, as ApiListener does after verification); the two configuration switches of the model are tied to the tree by the source facts f_pm_perms_read_fresh and f_pm_auth_user_per_request',
            'concurrency model coq/Perm/PmConc.v: GetFilterTargets is ONE atomic step whose result satisfies C18_only_permitted at that moment (linearised at the resolution of the target), registry operations are atomic, ObjectNameLock is mutual exclusion per name, an object keeps the attributes it had when it was authorised; the tie samples ONE directed schedule per request shape (parking inside the permission filter through a side-effect-free native function pm_sig registered by the harness; no hook in /repo)']
 ASSUMPTIONS = ['ASCII permission strings and object names (String::ToLower and tolower agree on ASCII)',
                'object names are unique per type (ConfigObject registry) and contain no "!" (enforced by Icinga name validation)',
@@ -41,6 +42,8 @@ ASSUMPTIONS = ['ASCII permission strings and object names (String::ToLower and t
                'a free name keeps its kind (string / array of strings) in globals and filter_vars; regex literals are [A-Za-z0-9-]+',
                'the used_by meta list and get_object() inside user filters are outside the statement (DESIGN.md C18)',
                'attribute names and join selectors are non-empty ASCII strings; values nested inside vars never hold config objects',
+               'ApiUser names are unique, non-empty, contain no colon; no ApiUser has an empty password; client_cn values are unique among the users of a case; Authorization values are well-formed (Basic + valid base64, or another scheme / no blank)',
+               'histories are sequential: a user is not changed WHILE one of its requests is being processed',
                'the fixture objects are not API-created, so DELETE is refused by ConfigObjectUtility::DeleteObject for every object: for delete the race op can only observe that the NEW object stays untouched']
 
 
@@ -1021,6 +1024,209 @@ def gen_race_case(rnd):
     return {'lines': lines, 'tags': {'family': 'race'}}
 
 
+# ---------------------------------------------------------------------------------------------------------------
+# round 6: histories.  family permission-history: request, change the user's `permissions` in the running process, request
+# again - through FilterUtility and the real handlers.  family keepalive-identity: one real HttpServerConnection, several
+# requests with different Authorization headers over the same TLS session.
+def wide_entry(rnd, perm):
+    segs = perm.split('/')
+    return mangle_case(rnd, rnd.choice([perm, '*', segs[0] + '/*', '/'.join(segs[:-1]) + '/*', perm[:-1] + '?', '*' + perm[3:]]))
+
+
+def perm_list(rnd, kind, perm, hosts, svcs):
+    """a permission list of a given power with respect to the required permission `perm`"""
+    other = [hx(rnd.choice(['status/query', 'events/*', 'console', 'objects/create/*', 'types']))]
+    if kind == 'wide':
+        es = [hx(wide_entry(rnd, perm))]
+        if rnd.random() < 0.3: es += other
+    elif kind == 'filtered':
+        es = [hx(wide_entry(rnd, perm)) + '@' + ','.join(rfilter(rnd, hosts, svcs, 'perm')) for _ in range(rnd.choice((1, 1, 2)))]
+        if rnd.random() < 0.3: es = other + es
+    elif kind == 'mixed':          # an unfiltered and a filtered entry both match: the filter still restricts (see notes)
+        es = [hx(wide_entry(rnd, perm)), hx(wide_entry(rnd, perm)) + '@' + ','.join(rfilter(rnd, hosts, svcs, 'perm'))]
+        rnd.shuffle(es)
+    elif kind == 'none':
+        es = other if rnd.random() < 0.7 else []
+    else:                          # near miss
+        es = [hx(mangle_case(rnd, rnd.choice([perm + 'x', perm[:-1], perm.replace('/', '\\?', 1), 'objects/query', '\\*'])))]
+    return ';'.join(es) if es else '-'
+
+
+def hist_requests(rnd, perm, tys, hosts, svcs, pairs, n):
+    """n request lines for the QueryDescription (perm, tys): FilterUtility and the HTTP handlers"""
+    out = []
+    for _ in range(n):
+        m = rnd.random()
+        q = gen_query(rnd, tys, hosts, svcs, pairs)
+        if m < 0.15:
+            out.append('pm_perm perm=%s' % hx(mangle_case(rnd, perm) if rnd.random() < 0.3 else perm))
+        elif m < 0.5:
+            out.append(('pm_q types=%s perm=%s prov=%d ' % (','.join(tys), hx(perm), rnd.choice((0, 0, 1))) + ' '.join(q)).rstrip())
+        elif perm.startswith('actions/'):
+            out.append('pm_http kind=action act=reschedule-check ' + ' '.join(q))
+        else:
+            kind = perm.split('/')[1]
+            t = tys[0]
+            q = [x for x in q if not x.startswith('type=') or rnd.random() < 0.3]
+            extra = ' name=%s' % hx(qname(rnd, t, hosts, pairs)) if rnd.random() < 0.35 else ''
+            if kind == 'query' and rnd.random() < 0.25:
+                out.append(('pm_aq ptype=%ss%s attrs=%s ' % (t.lower(), extra, ','.join(hx(x) for x in ['name', 'vars'])) + ' '.join(q)).rstrip())
+            else:
+                out.append(('pm_http kind=%s ptype=%ss%s ' % (kind, t.lower(), extra) + ' '.join(q)).rstrip())
+    return out
+
+
+HIST_QDS = [q for q in QDS if q[0] in ('objects/query/Host', 'objects/query/Service', 'objects/modify/Host', 'objects/modify/Service',
+                                       'actions/reschedule-check', 'objects/delete/Host')]
+CHANGES = ['narrow', 'widen', 'revoke', 'add-filter', 'remove-filter', 'restore', 'replace', 'near-miss']
+
+
+def gen_history_case(rnd):
+    hosts, svcs, pairs, lines = gen_inventory(rnd)
+    FREE_SHARE[0] = 0.0
+    perm, tys = rnd.choice(HIST_QDS)
+    kind = rnd.choice(['wide', 'wide', 'filtered', 'mixed', 'none'])
+    cur = perm_list(rnd, kind, perm, hosts, svcs)
+    lines.append('pm_user perms=' + cur)
+    lines.append('pm_load')
+    me = hx('pmuser')
+    changes = []
+    reqs = hist_requests(rnd, perm, tys, hosts, svcs, pairs, rnd.randint(2, 4))
+    if rnd.random() < 0.85:
+        lines += reqs                       # the user is checked at least once BEFORE the change (15%: the change comes first)
+    for r in range(rnd.randint(1, 4)):
+        ch = rnd.choice(CHANGES)
+        nk = {'narrow': 'filtered', 'widen': 'wide', 'revoke': 'none', 'add-filter': 'mixed', 'remove-filter': 'wide',
+              'near-miss': 'near'}.get(ch, rnd.choice(['wide', 'filtered', 'none']))
+        new = perm_list(rnd, nk, perm, hosts, svcs)
+        if ch == 'restore':
+            lines.append('pm_urestore name=%s%s' % (me, ' via=http' if rnd.random() < 0.4 else ''))
+        elif ch == 'replace':
+            lines.append('pm_udel name=%s' % me)
+            lines.append('pm_auser name=%s pass=%s perms=%s' % (me, hx('pw'), new))
+        else:
+            via = ' via=http' if ('@' not in new or all(e.endswith('@') for e in new.split(';') if '@' in e)) and rnd.random() < 0.5 else ''
+            lines.append('pm_uset name=%s perms=%s%s' % (me, new, via))
+        changes.append(ch)
+        # the same requests again (what the change must affect), plus fresh ones
+        again = [x for x in reqs if rnd.random() < 0.8] + hist_requests(rnd, perm, tys, hosts, svcs, pairs, rnd.randint(0, 2))
+        rnd.shuffle(again)
+        lines += again
+    return {'lines': lines, 'tags': {'family': 'permission-history', 'changes': '+'.join(changes)}}
+
+
+CONN_USERS = ['alice', 'bob', 'Alice', 'carol', 'dave']
+CONN_PASS = ['secret', 'pw2', 'p:w', 'Secret', 'x']
+
+
+def gen_conn_case(rnd):
+    hosts, svcs, pairs, lines = gen_inventory(rnd)
+    FREE_SHARE[0] = 0.0
+    t = rnd.choice(['Host', 'Host', 'Service'])
+    perm = 'objects/query/' + t
+    lines.append('pm_user perms=' + perm_list(rnd, rnd.choice(['wide', 'filtered', 'none']), perm, hosts, svcs))
+    lines.append('pm_load')
+    users = {'pmuser': 'pw'}                 # registered name -> password
+    cns = {}
+    names = rnd.sample(CONN_USERS, rnd.randint(2, 4))
+    kinds = ['wide', 'none', 'filtered', 'wide', 'near']
+    rnd.shuffle(kinds)
+
+    def create(n, kind=None):
+        pw = rnd.choice(CONN_PASS)
+        cn = ''
+        if rnd.random() < 0.3 and n not in cns:
+            cns[n] = 'cn-' + n
+            cn = ' cn=%s' % hx(cns[n])
+        lines.append('pm_auser name=%s pass=%s%s perms=%s' % (hx(n), hx(pw), cn, perm_list(rnd, kind or rnd.choice(kinds), perm, hosts, svcs)))
+        users[n] = pw
+    for i, n in enumerate(names):
+        create(n, kinds[i % len(kinds)])
+    removed = {}
+
+    def header():
+        m = rnd.random()
+        if m < 0.66 and users:
+            n = rnd.choice(sorted(users))
+            return 'b:' + hx('%s:%s' % (n, users[n])), 'valid'
+        if m < 0.76 and users:
+            n = rnd.choice(sorted(users))
+            others = [p for p in CONN_PASS + ['pw'] if p != users[n]]
+            bad = rnd.choice([rnd.choice(others), users[n][:-1], users[n] + 'x', users[n].swapcase() if users[n].swapcase() != users[n] else 'zz', ''])
+            if bad == users[n]: bad = 'zz'
+            return 'b:' + hx('%s:%s' % (n, bad)), 'wrong-password'
+        if m < 0.83:
+            n = rnd.choice(sorted(removed) + ['mallory', 'PMUSER', 'alice ', ''] if removed else ['mallory', 'PMUSER', 'pmuse', ''])
+            if n in users: n = 'mallory'
+            return 'b:' + hx('%s:%s' % (n, removed.get(n, rnd.choice(CONN_PASS)))), 'unknown-user'
+        if m < 0.87 and users:
+            return 'b:' + hx(rnd.choice(sorted(users))), 'no-colon'
+        if m < 0.94:
+            return 'none', 'no-header'
+        n = rnd.choice(sorted(users)) if users else 'x'
+        import base64
+        b = base64.b64encode(('%s:%s' % (n, users.get(n, 'x'))).encode()).decode()
+        return 'o:' + hx(rnd.choice(['Bearer ' + b, 'basic ' + b, 'BASIC ' + b, 'Digest username="%s"' % n, 'Basic', b])), 'other-scheme'
+
+    nconn = 0
+    opened = []
+    dead = set()          # connections on which (correct code) a request was answered 401 or that were asked to close
+    certs = set()         # connections whose certificate CN belongs to a user
+    kindsused = []
+
+    def open_conn():
+        nonlocal nconn
+        nconn += 1
+        cn = ''
+        if rnd.random() < 0.25:
+            cn = ' cn=%s' % hx(rnd.choice(sorted(cns.values()) + ['cn-nobody']) if cns else 'cn-nobody')
+        lines.append('pm_copen conn=%d%s' % (nconn, cn))
+        opened.append(nconn)
+        if cn and 'cn-nobody' not in cn and hx('cn-nobody') not in cn: certs.add(nconn)
+    open_conn()
+    for step in range(rnd.randint(6, 12)):
+        m = rnd.random()
+        if m < 0.10 and len(opened) < 3:
+            open_conn()
+            continue
+        if m < 0.22:
+            # the world changes between two requests of a connection
+            n = rnd.choice(sorted(users))
+            k = rnd.random()
+            if k < 0.5:
+                new = perm_list(rnd, rnd.choice(['wide', 'none', 'filtered', 'near']), perm, hosts, svcs)
+                lines.append('pm_uset name=%s perms=%s' % (hx(n), new))
+            elif k < 0.65:
+                lines.append('pm_urestore name=%s' % hx(n))
+            elif k < 0.85 and n != 'pmuser':
+                lines.append('pm_udel name=%s' % hx(n))
+                removed[n] = users.pop(n)
+            elif n != 'pmuser':
+                lines.append('pm_udel name=%s' % hx(n))
+                removed[n] = users.pop(n)
+                create(n)
+            continue
+        live = [x for x in opened if x not in dead]
+        if not live and len(opened) < 4:
+            open_conn()
+            live = [opened[-1]]
+        # mostly a connection that is still open; 25%: any (a request after a 401 must not be served either)
+        c = rnd.choice(live) if live and rnd.random() < 0.75 else rnd.choice(opened)
+        h, hk = header()
+        kindsused.append(hk)
+        q = [x for x in gen_query(rnd, [t], hosts, svcs, pairs) if not x.startswith('type=') or rnd.random() < 0.3]
+        if rnd.random() < 0.5:
+            q = []                            # plain listing of the type
+        extra = ' name=%s' % hx(qname(rnd, t, hosts, pairs)) if rnd.random() < 0.25 else ''
+        close = ' close=1' if rnd.random() < 0.06 else ''
+        if (hk != 'valid' and c not in certs) or close: dead.add(c)
+        lines.append(('pm_creq conn=%d hdr=%s ptype=%ss%s%s ' % (c, h, t.lower(), extra, close) + ' '.join(q)).rstrip())
+    for c in opened:
+        if rnd.random() < 0.5:
+            lines.append('pm_cclose conn=%d' % c)
+    return {'lines': lines, 'tags': {'family': 'keepalive-identity', 'headers': '+'.join(sorted(set(kindsused)))}}
+
+
 def gen_field_tables_case():
     return {'lines': ['pm_fields type=%s' % t for t in ('Host', 'Service', 'CheckCommand', 'EventCommand', 'TimePeriod', 'Endpoint')],
             'tags': {'family': 'field-tables'}}
@@ -1047,13 +1253,17 @@ def generate(seed, tier):
         cases.append(gen_race_case(rnd))
     for i in range(n // 4):
         cases.append(gen_attrs_case(rnd))
+    for i in range(n // 5):
+        cases.append(gen_history_case(rnd))
+    for i in range(n // 5):
+        cases.append(gen_conn_case(rnd))
     return cases
 
 
 def nontrivial(case, impl_lines):
     if case['lines'] and case['lines'][0].startswith(('pm_match', 'pm_fields')):
         return True
-    return any((' objs=' in l and ' objs=-' not in l) or 'res=err' in l or 'code=404' in l for l in impl_lines)
+    return any((' objs=' in l and ' objs=-' not in l) or 'res=err' in l or 'code=404' in l or 'code=401' in l for l in impl_lines)
 
 
 def classify(case, detail, impl_lines):
@@ -1061,6 +1271,10 @@ def classify(case, detail, impl_lines):
         return 'crash'
     if 'match-differs' in detail:
         return 'matcher'
+    if 'decided-on-an-earlier-permission-list' in detail:
+        return 'stale-permission-list'
+    if 'identity:' in detail:
+        return 'identity'
     if 'has-permission-differs' in detail or 'out-parameter' in detail or 'check-permission-disagrees' in detail:
         return 'permission-matching'
     if 'rejected-first' in detail or 'request-served' in detail:
@@ -1084,7 +1298,7 @@ def canon(lines):
 
 
 def keep_line(l):
-    return l.startswith(('pm_host', 'pm_svc', 'pm_user', 'pm_load'))
+    return l.startswith(('pm_host', 'pm_svc', 'pm_user', 'pm_load', 'pm_copen'))
 
 
 def _nav_order_stats(case, c):
@@ -1216,6 +1430,12 @@ def extra_stats(cases, impl):
                 c['race:' + kv.get('kind', '?')] += 1
             elif op == 'pm_glob':
                 c['globals_declared'] += 1
+            elif op in ('pm_uset', 'pm_urestore', 'pm_udel', 'pm_auser'):
+                c['user_change:' + op[3:] + (':via-http' if ' via=http' in l else '')] += 1
+            elif op == 'pm_copen':
+                c['conn_opened' + ('_with_certificate_cn' if ' cn=' in l else '')] += 1
+            elif op == 'pm_creq':
+                c['conn_requests'] += 1
             elif op == 'pm_user':
                 n = 0 if l.endswith(('=-', '=none')) else l.count(';') + 1
                 c['user_entries:%d' % n] += 1
@@ -1239,7 +1459,31 @@ def extra_stats(cases, impl):
                 c['aq_' + (l.split('code=')[1].split()[0] if 'code=' in l else '?')] += 1
                 if ' joins=' in l and ' joins=-' not in l: c['aq_join_serialised'] += 1
                 if ' akeys=#' in l: c['aq_all_fields'] += 1
+            elif l.startswith('pm_creq'):
+                c['creq_' + (l.split('code=')[1].split()[0] if 'code=' in l else 'closed')] += 1
             elif l.startswith('pm_perm'):
                 c['perm_has' if 'has=1' in l else 'perm_missing'] += 1
                 if '!E' in l: c['perm_filter_throws'] += 1
+    # round 6: how many requests FOLLOW a runtime change of the user they are decided for, and how many connections carry more than one identity
+    for cs in cases:
+        fam = cs.get('tags', {}).get('family')
+        if fam == 'permission-history':
+            changed = False
+            for l in cs['lines']:
+                op = l.split()[0]
+                if op in ('pm_uset', 'pm_urestore', 'pm_udel'): changed = True
+                elif op in ('pm_q', 'pm_http', 'pm_perm', 'pm_aq'):
+                    c['history_requests_after_a_change' if changed else 'history_requests_before_any_change'] += 1
+            for ch in cs['tags'].get('changes', '').split('+'):
+                if ch: c['history_change:' + ch] += 1
+        elif fam == 'keepalive-identity':
+            per = {}
+            for l, o in zip([x for x in cs['lines'] if x.startswith('pm_creq')], [x for x in impl.get(cs['id'], []) if x.startswith('pm_creq')]):
+                kv = dict(p.split('=', 1) for p in l.split()[1:] if '=' in p)
+                if 'closed' not in o: per.setdefault(kv['conn'], []).append(kv['hdr'])
+            for hs in per.values():
+                if len(set(hs)) > 1: c['connections_answering_under_more_than_one_header'] += 1
+                if len(hs) > 1: c['connections_with_more_than_one_answered_request'] += 1
+            for hk in cs['tags'].get('headers', '').split('+'):
+                if hk: c['conn_cases_with_header:' + hk] += 1
     return {k: v for k, v in c.items() if v}
